@@ -263,8 +263,10 @@ macro_rules! float_case_impl {
     };
     (@nclookup false, $c:ident, $labs:ident, $inp:ident, $cls:ident, $Pr:ty, $P:literal, $t:ident, $norm_val:ident) => {};
     (@lookup true, $c:ident, $m:ident, $rows:ident, $qs:ident, $input:ident, $class:ident, $Pr:ty, $P:literal, $t:ident, $norm_val:ident, $valid:ident, $tags:ident, $support:ident, $outside:ident) => {
-        if let Some(g) = query($c, "to_lookup_decoder_model", $class, &$input, "C05", || Ok($m.to_lookup_decoder_model())) {
-            if query($c, "to_lookup_decoder_model", $class, &$input, "C05", || check_dec::<_, usize, $P>(&g, $rows, &$qs)).is_some() { $c.sink.count("representation_comparisons", 1); }
+        // (a lookup model obtained by conversion is a "lookup" categorical model of C03's list as much as a representation of C05's)
+        let tags_conv: &'static str = if $valid { "C03,C05" } else { "C05" };
+        if let Some(g) = query($c, "to_lookup_decoder_model", $class, &$input, tags_conv, || Ok($m.to_lookup_decoder_model())) {
+            if query($c, "to_lookup_decoder_model", $class, &$input, tags_conv, || check_dec::<_, usize, $P>(&g, $rows, &$qs)).is_some() { $c.sink.count("representation_comparisons", 1); }
         }
         if let Some(g) = query($c, "to_generic_lookup_decoder_model", $class, &$input, "C05", || Ok($m.to_generic_lookup_decoder_model())) {
             if query($c, "to_generic_lookup_decoder_model", $class, &$input, "C05", || check_dec::<_, usize, $P>(&g, $rows, &$qs)).is_some() { $c.sink.count("representation_comparisons", 1); }
